@@ -204,6 +204,16 @@ def hook(put):
     cr = X.func_body(conn_src, "nni_http_conn_reset")
     put("httpSrvIserrReset", bool(re.search(r"conn->iserr\s*=\s*false;", cr)),
         "http_conn.c nni_http_conn_reset clears iserr, so an error answer does not turn later answers on the connection into error pages (flag)")
+    pr = X.func_body(conn_src, "http_prepare")
+    m = X.one(r"if \(\(len (<=?) conn->bufsz\) && \(conn->rd_get == conn->rd_put\)\) \{\s*http_snprintf\(conn, \(char \*\) conn->buf, conn->bufsz\);\s*"
+              r"\*data = conn->buf;\s*\*szp\s*=\s*len;", pr, "http_prepare fixed-buffer test")
+    put("httpWrFixedIfLess", m.group(1) == "<",
+        "http_conn.c http_prepare: the head is formatted into the connection buffer only when len < bufsz, so that the NUL snprintf appends "
+        "does not replace its last byte (flag)")
+    X.one(r"\*data = nni_alloc\(len \+ 1\)\) == NULL.*?http_snprintf\(conn, \*data, len \+ 1\);\s*\*szp = len;", pr, "http_prepare heap path")
+    tc = X.func_body(X.src("src/supplemental/http/http_client.c"), "nni_http_transact_conn")
+    put("httpCliResetsResponse", bool(re.search(r"nni_http_res_reset\(txn->res\);\s*nni_http_set_status\(txn->conn, 0, NULL\);", tc)),
+        "http_client.c nni_http_transact_conn resets the connection's response object (headers, body) and status before the request is sent (flag)")
     tx = X.func_body(srv_src, "http_sconn_txdone")
     X.one(r"if \(sc->close\) \{\s*http_sconn_close\(sc\);\s*return;\s*\}\s*sc->handler = NULL;\s*if \(sc->unconsumed_body\) \{\s*"
           r"nni_http_read_discard\(\s*sc->conn, sc->unconsumed_body, &sc->rxaio\);\s*\} else \{\s*nni_http_read_req\(sc->conn, &sc->rxaio\);", tx,
